@@ -57,9 +57,7 @@ func init() {
 		cliAlwaysGenerates(c)
 		// the result variables of the -stub branch are allocated like parameters, in the same scope, and the
 		// builtin panic of the default branch must not be shadowed by a parameter
-		if na := gen.CheckAddVar(c.Run, c.Prog); na != nil {
-			gen.CheckReserved(c.Run, c.Prog, na, freeNameList(c, "G-RESERVED"), false)
-		}
+		namesTables(c, freeNameList(c, "G-RESERVED"), false, false)
 		gen.CheckVarNameOwners(c.Run, c.Prog)
 	})
 	register("C08", "other", func(c *Ctx) {
